@@ -2,8 +2,8 @@
    Property theorems only; proofs in proofs/OutputsProof.v (value, blindness, swap balance),
    ByNameProof.v (expected column by name, X when absent: C06_expected_by_name covers TyVirtual),
    MaskProof/Bind (64 bits wide: C07_virtual_is_64). *)
-From DTR Require Import Prelude I64 Ast FramedMap Lexer Parser Bind Eval Stmt Iter WfSpec.
-From DTR.proofs Require Import EvalProof IterLogProof OutputsProof NoPanicProof ParserProof BindProof Chain.
+From DTR Require Import Prelude I64 Ast FramedMap Lexer Parser Bind Eval Stmt Iter Script WfSpec.
+From DTR.proofs Require Import EvalProof IterLogProof OutputsProof NoPanicProof ParserProof BindProof Chain RunRefineE IterLogProofE VectorProof OutputsRunProof VarsRunProof.
 Local Open Scope nat_scope.
 
 (* the value of a virtual signal in a checked row = its expression evaluated in a context with NO program variables over the outputs of THIS row's call (ctx_new (couts c), where couts c is this call's answer by C04); the generator state is threaded through the preceding virtual signals *)
@@ -98,7 +98,116 @@ Theorem C14_virtual_entries_are_the_declared_ones :
   forall e : expr, nth_error oi k = Some (OIVirtual e) <-> styp s = TyVirtual e.
 Proof. exact build_virtual_entries. Qed.
 
+(* RUN LEVEL, through error items: in every row of every run each declared (virtual) signal carries the value of its expression evaluated in a context WITHOUT variables whose outputs are the answer to that very row's call *)
+Theorem C14_declared_values_of_every_row :
+  forall (G : gen) (DE : Type) (D : driver DE) (w_default : bool) (tc : testcase) 
+  (fuel n : nat) (st0 : istate),
+  try_new DE D tc = NewOk DE st0 ->
+  Forall
+  (fun s : step DE =>
+  match step_item DE s with
+  | VRow row =>
+  exists (er : evaluated_row) (st1 : istate),
+  get_row G tc fuel (step_pre DE s) = GRRow er st1 /\
+  declared_values_ok G DE D (i_log (step_pre DE s)) (crng (i_ctx st1)) (i_outidx st0) row /\
+  (dr_outputs row <> [] ->
+  i_log (step_post DE s) = i_log (step_pre DE s) ++ [(RW, dr_inputs row)] /\
+  (exists outs : list out_entry,
+  D (i_log (step_pre DE s)) (RW, dr_inputs row) = DrvOk outs /\
+  couts (i_ctx (step_post DE s)) = outs_map outs))
+  | _ => True
+  end) (steps_e G DE D w_default tc fuel n st0).
+Proof. exact declared_values_of_every_row. Qed.
+
+(* the total case table of next(): in every outcome that made a call the variables are those right after the row was evaluated, and the map used to hide the variables from declared signals is empty again *)
+Theorem C14_variables_untouched_in_every_outcome :
+  forall (G : gen) (DE : Type) (D : driver DE) (w_default : bool) (tc : testcase) 
+  (fuel : nat) (st : istate),
+  match inext G DE D w_default tc fuel st with
+  | ItNone _ st' =>
+  get_row G tc fuel st = GRNone st' /\ i_log st' = i_log st /\ calt (i_ctx st') = calt (i_ctx st)
+  | ItRow _ _ st' =>
+  exists (er : evaluated_row) (st1 : istate) (outs : list out_entry),
+  get_row G tc fuel st = GRRow er st1 /\
+  D (i_log st) (call_kind w_default er, er_inputs er) = DrvOk outs /\
+  i_log st' = i_log st ++ [(call_kind w_default er, er_inputs er)] /\
+  cvars (i_ctx st') = cvars (i_ctx st1) /\ calt (i_ctx st') = calt (i_ctx st)
+  | ItErr _ (IE_Driver e) st' =>
+  exists (er : evaluated_row) (st1 : istate),
+  get_row G tc fuel st = GRRow er st1 /\
+  D (i_log st) (call_kind w_default er, er_inputs er) = DrvErr e /\
+  i_log st' = i_log st ++ [(call_kind w_default er, er_inputs er)] /\
+  cvars (i_ctx st') = cvars (i_ctx st1) /\ calt (i_ctx st') = calt (i_ctx st)
+  | ItErr _ (IE_Runtime r) st' =>
+  (exists x : xerr,
+  r = RT_Expr x /\
+  get_row G tc fuel st = GRErr x st' /\
+  i_log st' = i_log st /\ calt (i_ctx st') = calt (i_ctx st)) \/
+  (exists (er : evaluated_row) (st1 : istate) (outs : list out_entry),
+  get_row G tc fuel st = GRRow er st1 /\
+  er_update_output er = true /\
+  D (i_log st) (RW, er_inputs er) = DrvOk outs /\
+  refusal (i_nout st) outs r /\
+  i_log st' = i_log st ++ [(RW, er_inputs er)] /\
+  cvars (i_ctx st') = cvars (i_ctx st1) /\ calt (i_ctx st') = calt (i_ctx st))
+  | _ => True
+  end.
+Proof. exact vars_unchanged_by_io_and_errors. Qed.
+
+Theorem C14_hiding_map_empty_in_every_reachable_state :
+  forall (G : gen) (DE : Type) (D : driver DE) (w_default : bool) (tc : testcase) (st : istate),
+  reachable G DE D w_default tc st -> calt (i_ctx st) = fm_new.
+Proof. exact calt_empty_in_every_reachable_state_any_fuel. Qed.
+
+(* a declared signal that fails on the answer makes that row an error item, with the variables intact and the answer already in place for later reads *)
+Theorem C14_failing_declared_signal_is_an_error_item :
+  forall (G : gen) (DE : Type) (D : driver DE) (w_default : bool) (tc : testcase) 
+  (oi : list out_index) (fuel : nat) (st : istate) (er : evaluated_row) (st1 : istate)
+  (outs : list out_entry) (k : nat) (e : expr) (xe : xerr) (c1 : ctx) (vals1 : list outval),
+  decl_inv tc oi st ->
+  get_row G tc fuel st = GRRow er st1 ->
+  er_update_output er = true ->
+  D (i_log st) (RW, er_inputs er) = DrvOk outs ->
+  length outs = i_nout st ->
+  nth_error oi k = Some (OIVirtual e) ->
+  extract_loop G tc (combine (firstn k (tc_expected_indices tc)) (firstn k oi)) outs
+  (ctx_swap_vars (ctx_set_outputs (i_ctx st1) (outs_map outs))) = (c1, Ok vals1) ->
+  fst (eval G (ctx_new (outs_map outs)) e (crng c1)) = Err xe ->
+  exists st' : istate,
+  inext G DE D w_default tc fuel st = ItErr DE (IE_Runtime (RT_Expr xe)) st' /\
+  cvars (i_ctx st') = cvars (i_ctx st1) /\
+  calt (i_ctx st') = fm_new /\
+  couts (i_ctx st') = outs_map outs /\ i_log st' = i_log st ++ [(RW, er_inputs er)].
+Proof. exact declared_failure_is_error_item. Qed.
+
+Theorem C14_declared_ZX_is_an_error_item :
+  forall (G : gen) (DE : Type) (D : driver DE) (w_default : bool) (tc : testcase) 
+  (oi : list out_index) (fuel : nat) (st : istate) (er : evaluated_row) (st1 : istate)
+  (outs : list out_entry) (k : nat) (x : name) (v : outval) (c1 : ctx) (vals1 : list outval),
+  decl_inv tc oi st ->
+  get_row G tc fuel st = GRRow er st1 ->
+  er_update_output er = true ->
+  D (i_log st) (RW, er_inputs er) = DrvOk outs ->
+  length outs = i_nout st ->
+  nth_error oi k = Some (OIVirtual (EVar x)) ->
+  extract_loop G tc (combine (firstn k (tc_expected_indices tc)) (firstn k oi)) outs
+  (ctx_swap_vars (ctx_set_outputs (i_ctx st1) (outs_map outs))) = (c1, Ok vals1) ->
+  ctx_get (ctx_new (outs_map outs)) x = Some v ->
+  v = OZ \/ v = OX ->
+  exists st' : istate,
+  inext G DE D w_default tc fuel st =
+  ItErr DE (IE_Runtime (RT_Expr (XE_UnexpectedValueForSignal x v))) st' /\
+  cvars (i_ctx st') = cvars (i_ctx st1) /\
+  calt (i_ctx st') = fm_new /\
+  couts (i_ctx st') = outs_map outs /\ i_log st' = i_log st ++ [(RW, er_inputs er)].
+Proof. exact declared_ZX_is_error_item. Qed.
+
+
+
 Check C14_virtual_value.
 Print Assumptions C14_virtual_value.
 Print Assumptions C14_blind_to_variables.
 Print Assumptions C14_ZX_is_error.
+Print Assumptions C14_declared_values_of_every_row.
+Print Assumptions C14_variables_untouched_in_every_outcome.
+Print Assumptions C14_failing_declared_signal_is_an_error_item.
